@@ -23,7 +23,12 @@ static unsigned long long g_curSeed = 0;
 static int g_curSub = 0;
 
 namespace tbfsim {
-void setStage(const char* stage) { std::snprintf(g_stageBuf, sizeof g_stageBuf, "%s", stage); }
+void setStage(const char* stage) {
+    std::snprintf(g_stageBuf, sizeof g_stageBuf, "%s", stage);
+    // the supervisor needs the stage when the process dies without being able to say so (sanitizer abort, kill)
+    std::printf("STAGE %llu %d %s\n", g_curSeed, g_curSub, g_stageBuf);
+    std::fflush(stdout);
+}
 }
 
 static void crashLine(const char* what) {
